@@ -7,6 +7,8 @@ import EsbuildModel.Impl.Quote
 import EsbuildModel.Impl.Exports
 import EsbuildModel.Impl.CssHex
 import EsbuildModel.Impl.Split
+import EsbuildModel.Impl.Determinism
+import EsbuildModel.Impl.Shake
 
 open EsbuildModel
 
@@ -21,6 +23,8 @@ def dispatch (kernel : String) (args : List String) : String :=
   | "exports" => Exports.driver args
   | "csshex" => CssHex.driver args
   | "split" => Split.driver args
+  | "det" => Det.driver args
+  | "shake" => Shake.driver args
   | _ => "bad-kernel"
 
 partial def loop (hin hout : IO.FS.Stream) : IO Unit := do
